@@ -506,6 +506,7 @@ theorem run_cases (cfg : Cfg) (r : Retry) (rd : Bool) (q : Rq) (i : Nat) (o : Ou
   | response st ra => exact replyStep_cases cfg r rd q i _ rest st ra rfl (run_response ..)
   | located st ra => exact replyStep_cases cfg r rd q i _ rest st ra rfl (run_located ..)
   | connectError k => exact run_error_cases cfg r rd q i _ rest rfl (by simp only [runAttempts])
+  | handshakeError k => exact run_error_cases cfg r rd q i _ rest rfl (by simp only [runAttempts])
   | sendError k => exact run_error_cases cfg r rd q i _ rest rfl (by simp only [runAttempts])
   | readError k => exact run_error_cases cfg r rd q i _ rest rfl (by simp only [runAttempts])
   | otherError => exact run_error_cases cfg r rd q i _ rest rfl (by simp only [runAttempts])
